@@ -8,6 +8,9 @@ CONSTANTS
   Interleave = FALSE
   Cfgs <- CfgsGated
   OraclesFor <- SeedOracles
+  MaxAccts = 0
+  AnswersFor <- AllAnswers
+  Deviation = {}
   ScenLen = 24
   Seeds = {1, 2, 3, 4, 5, 6, 7, 8}
   StartSlots = {2, 3}
@@ -16,5 +19,6 @@ CONSTANTS
   MaxHolds = 99
   Focus = FALSE
   Disjoint = FALSE
+  Tight = FALSE
 INVARIANTS Emit
 CHECK_DEADLOCK FALSE
